@@ -453,3 +453,86 @@ Proof.
       rewrite Hm. exact Ha.
     + rewrite Hb. reflexivity.
 Qed.
+
+(* ---- history independence ---------------------------------------------------------------------------- *)
+Section HistoryProofs.
+  Variables (A R T : Type).
+  Variable teqb : T -> T -> bool.
+
+  Lemma handle_verdict : forall c (bh : name -> A -> list name -> list name * R) (st : wstate A T) (rq : request A T),
+    reply_verdict R (snd (Model.handle A R T teqb c bh st rq)) =
+    if admits A T teqb st rq then Some (check_and_get c (w_inst st) (rq_name rq)) else None.
+  Proof.
+    intros c bh st rq. unfold Model.handle. destruct (admits A T teqb st rq); [|reflexivity].
+    destruct (check_and_get c (w_inst st) (rq_name rq)) eqn:Ev; try reflexivity.
+    destruct (bh (rq_name rq) (rq_args rq) (w_inst st)). reflexivity.
+  Qed.
+
+  (* the verdict is a function of the class table and the instance dictionary only *)
+  Lemma verdict_function_of_table_and_dict :
+    forall c (bh1 bh2 : name -> A -> list name -> list name * R) (st1 st2 : wstate A T) (rq1 rq2 : request A T),
+    w_inst st1 = w_inst st2 -> rq_name rq1 = rq_name rq2 ->
+    admits A T teqb st1 rq1 = true -> admits A T teqb st2 rq2 = true ->
+    reply_verdict R (snd (Model.handle A R T teqb c bh1 st1 rq1)) =
+    reply_verdict R (snd (Model.handle A R T teqb c bh2 st2 rq2)) /\
+    reply_verdict R (snd (Model.handle A R T teqb c bh1 st1 rq1)) =
+    Some (check_and_get c (w_inst st1) (rq_name rq1)).
+  Proof.
+    intros c bh1 bh2 st1 st2 rq1 rq2 Hi Hn H1 H2. rewrite !handle_verdict, H1, H2, Hi, Hn. split; reflexivity.
+  Qed.
+
+  Variable behave : cls -> name -> A -> list name -> list name * R.
+  Hypothesis behave_keeps_dict : forall c n a i, fst (behave c n a i) = i.
+
+  Lemma step_inst : forall c (st : wstate A T) o,
+    w_inst (fst (Model.step A R T teqb c (behave c) st o)) = w_inst st.
+  Proof.
+    intros c st [rq|t]; simpl; [|reflexivity]. unfold Model.handle.
+    destruct (admits A T teqb st rq); [|reflexivity].
+    destruct (check_and_get c (w_inst st) (rq_name rq)); try reflexivity.
+    pose proof (behave_keeps_dict c (rq_name rq) (rq_args rq) (w_inst st)) as H.
+    destruct (behave c (rq_name rq) (rq_args rq) (w_inst st)) as [i r]. simpl in *. exact H.
+  Qed.
+
+  Lemma sys_step_keeps : forall (s : list (object A T)) i o j c st,
+    nth_error s j = Some (c, st) ->
+    exists st', nth_error (fst (sys_step A R T teqb behave s i o)) j = Some (c, st') /\ w_inst st' = w_inst st.
+  Proof.
+    induction s as [|[c0 st0] r IH]; intros i o j c st Hj.
+    - destruct j; discriminate.
+    - simpl. destruct i as [|i'].
+      + destruct (Model.step A R T teqb c0 (behave c0) st0 o) as [st' x] eqn:Es. simpl.
+        destruct j as [|j']; simpl in *.
+        * inversion Hj; subst. exists st'. split; [reflexivity|].
+          pose proof (step_inst c st o) as H. rewrite Es in H. exact H.
+        * exists st. split; [exact Hj | reflexivity].
+      + destruct (sys_step A R T teqb behave r i' o) as [r' y] eqn:Er. simpl.
+        destruct j as [|j']; simpl in *.
+        * inversion Hj; subst. exists st. split; reflexivity.
+        * specialize (IH i' o j' c st Hj). rewrite Er in IH. exact IH.
+  Qed.
+
+  Lemma sys_run_keeps : forall l (s : list (object A T)) j c st,
+    nth_error s j = Some (c, st) ->
+    exists st', nth_error (fst (sys_run A R T teqb behave s l)) j = Some (c, st') /\ w_inst st' = w_inst st.
+  Proof.
+    induction l as [|[i o] r IH]; intros s j c st Hj; simpl.
+    - exists st. split; [exact Hj | reflexivity].
+    - destruct (sys_step A R T teqb behave s i o) as [s1 x] eqn:Es.
+      destruct (sys_step_keeps s i o j c st Hj) as [st1 [H1 Hi1]]. rewrite Es in H1. simpl in H1.
+      destruct (IH s1 j c st1 H1) as [st2 [H2 Hi2]].
+      destruct (sys_run A R T teqb behave s1 r) as [s2 xs]. simpl in *.
+      exists st2. split; [exact H2 | congruence].
+  Qed.
+
+  Lemma history_independent : forall l (s : list (object A T)) j c st (rq : request A T),
+    nth_error s j = Some (c, st) ->
+    exists st', nth_error (fst (sys_run A R T teqb behave s l)) j = Some (c, st') /\
+      w_inst st' = w_inst st /\
+      reply_verdict R (snd (Model.handle A R T teqb c (behave c) st' rq)) =
+      if admits A T teqb st' rq then Some (check_and_get c (w_inst st) (rq_name rq)) else None.
+  Proof.
+    intros l s j c st rq Hj. destruct (sys_run_keeps l s j c st Hj) as [st' [H1 H2]].
+    exists st'. split; [exact H1|]. split; [exact H2|]. rewrite handle_verdict, H2. reflexivity.
+  Qed.
+End HistoryProofs.
